@@ -70,12 +70,19 @@ def run(R):
     nsh = 16
     shards = vlib.shard(scs, nsh)
     traces = []
+    denied = 0
     for i, sh in enumerate(shards):
         sp = R.path("alloc", "s%d.script" % i)
         open(sp, "w").write("\n".join("\n".join(sc) for sc in sh) + "\n")
         tp = R.path("alloc", "t%d.ndjson" % i)
         R.run([exe, sp, tp], ok_codes=(0, 70), timeout=1800)
         traces.append((tp, sp))
+        if i % 2 == 0 or thorough:            # the same script in a process that may not lock memory (mlock answers ENOMEM)
+            tq = R.path("alloc", "t%d-nolock.ndjson" % i)
+            R.run([exe, sp, tq], env={"VERIF_MLOCK_FAIL": "1"}, ok_codes=(0, 70), timeout=1800)
+            first = open(tq).readline()
+            denied += '"mlock_denied":true' in first
+            traces.append((tq, sp))
     res = R.tlc_shards("sys/TraceGuardedAlloc.tla", "TraceGuardedAlloc.cfg", [{"TRACE": t} for t, _ in traces], timeout=1800)
     nacc = 0
     nev = 0
@@ -94,6 +101,9 @@ def run(R):
                     {"events": lines[start:line], "script": open(sp).read().splitlines()}, name="trace")
     R.add("traces_validated_against_impl", nacc)
     R.cov["trace_events"] = nev
+    R.cov["runs_with_mlock_denied"] = denied
+    if not denied:
+        R.notes.append("the seccomp filter that makes mlock fail could not be installed here: the no-lock runs equal the ordinary ones")
     R.cov["sizes"] = "%d sizes: 0..48, 4096k-18..4096k+1 (k=1..3)%s" % (len(sizes), ", every size 0..12289" if thorough else "")
     R.sample({"scenario": scs[60][:12]})
     R.sample({"events": open(traces[0][0]).read().splitlines()[:3]})
